@@ -76,7 +76,9 @@ def generate(seed, mode):
         cb = w.sample(range(c), min(c, w.choice([0, 1, 1, 2])))
         decl = w.choice(['none', 'impl', 'impl', 'only', 'first', 'impl+provider', 'provider'])
         classes.append({'bases': cb, 'decl': decl, 'xs': w.sample(range(nI), w.randint(0 if decl == 'only' else 1, min(2, nI))),
-                        'pxs': w.sample(range(nI), w.randint(1, min(2, nI)))})
+                        'pxs': w.sample(range(nI), w.randint(1, min(2, nI))),
+                        # a class that is false in a boolean context (its metaclass defines __bool__ / __len__): legal, if unusual
+                        'falsy': w.random() < 0.15})
     restart = bool(mode.get('restart'))
     nops = w.randint(2, 10)
     ops = []
@@ -93,7 +95,7 @@ def generate(seed, mode):
             ops.append({'op': 'nprov', 'o': o.randrange(8), 'x': o.randrange(nI), 'k': k})
         elif r < 0.8 and not restart:
             ops.append({'op': 'cdecl', 'c': o.randrange(ncls), 'xs': o.sample(range(nI), o.randint(0, min(2, nI))),
-                        'how': o.choice(['impl', 'only', 'first', 'cprov']), 'k': k})
+                        'how': o.choice(['impl', 'only', 'first', 'cprov', 'calso', 'cno']), 'k': k})
         elif r < 0.86 and not restart:
             ops.append({'op': 'gc', 'k': k})
         else:
@@ -122,13 +124,24 @@ def build_world(W):
         setattr(mod, name, I)
         ifs.append(I)
     classes = []
+
+    class FalsyMeta(type):
+        def __bool__(cls):
+            return False
+
+        def __len__(cls):
+            return 0
+    FalsyMeta.__module__ = WMOD
+    FalsyMeta.__qualname__ = 'FalsyMeta'
+    mod.FalsyMeta = FalsyMeta
     for c, cd in enumerate(W['classes']):
         name = 'PK%d' % c
         bl = [classes[b] for b in cd['bases']]
         cls = None
+        meta = FalsyMeta if cd.get('falsy') else type
         for attempt in (bl, bl[:1], []):
             try:
-                cls = type(name, tuple(attempt) or (object,), {'__module__': WMOD, '__qualname__': name})
+                cls = meta(name, tuple(attempt) or (object,), {'__module__': WMOD, '__qualname__': name})
                 break
             except TypeError:
                 continue
@@ -408,6 +421,14 @@ def execute_pickle(program, ctx, mode):
             elif how == 'first':
                 if xs:
                     classImplementsFirst(classes[c], xs[0])
+            elif how == 'calso':
+                alsoProvides(classes[c], *xs)          # extends the class's own provides-declaration after it exists
+            elif how == 'cno':
+                try:
+                    if xs:
+                        noLongerProvides(classes[c], xs[0])
+                except ValueError:
+                    pass
             else:
                 directlyProvides(classes[c], *xs)
             hist_class_ops[0] = True
